@@ -209,11 +209,16 @@ def j_c03(sh, a, b):
             n = len(rd[2]) // 2
             want = 'rd pkt %s c=%d' % (expect, n)
             res['evals'] += 1
-            res['keys'].append(frame_key(expect))
+            fk = frame_key(expect)
+            res['keys'].append(fk)
+            kind, _, nz = fk.partition('|')
+            frame_hist = ['kind=' + kind, 'frame-bytes=%s' % ('<128' if n < 130 else '<16384' if n < 16387 else '>=16384')]
+            frame_hist += ['carries=' + kind + '.' + f for f in nz.split(',') if f]
+            res['frame_hist'] = res.get('frame_hist', []) + frame_hist
             if sh['go'][i + 1] != want:
                 res['concrete'].append(dict(line=i + 1, what='valid frame not decoded to the values it carries: got `%s` want `%s`' % (
                     sh['go'][i + 1][:300], want[:300])))
-    res['hist'] = case_hist(sh, a, b)
+    res['hist'] = case_hist(sh, a, b) + res.pop('frame_hist', [])
     return res
 
 
